@@ -88,6 +88,12 @@ func concFlight(args []string, out *bufio.Writer) {
 		var stamp atomic.Int64
 		rounds := 5 + r.intn(15)
 		for round := 0; round < rounds; round++ {
+			if r.chance(0.25) {
+				if !supersedeRound(c, r, round, &stamp, out) {
+					break
+				}
+				continue
+			}
 			outcome := pick(r, []string{"ok", "ok", "err", "nf", "pan"})
 			callers := 2 + r.intn(8)
 			nkeys := 1 + r.intn(3)
@@ -173,6 +179,112 @@ func concFlight(args []string, out *bufio.Writer) {
 			}
 		}
 	}
+}
+
+// gatedLoader blocks every invocation on its own gate and finishes it with its own outcome.
+type gatedLoader struct {
+	stamp    *atomic.Int64
+	mu       *sync.Mutex
+	log      *[]string
+	calls    *atomic.Int32
+	gates    []chan struct{}
+	outcomes []string
+	entered  []chan struct{}
+	base     int
+}
+
+func (l gatedLoader) Load(_ context.Context, k int) (int, error) {
+	inv := int(l.calls.Add(1)) - 1
+	enter := l.stamp.Add(1)
+	oc := "ok"
+	if inv < len(l.gates) {
+		close(l.entered[inv])
+		<-l.gates[inv]
+		oc = l.outcomes[inv]
+	}
+	exit := l.stamp.Add(1)
+	l.mu.Lock()
+	*l.log = append(*l.log, fmt.Sprintf("load %d %d %d %s", k, enter, exit, oc))
+	l.mu.Unlock()
+	switch oc {
+	case "ok":
+		return l.base + inv, nil
+	case "err":
+		return 0, errLoader
+	case "nf":
+		return 0, otter.ErrNotFound
+	}
+	panic("loader-panic")
+}
+func (l gatedLoader) Reload(ctx context.Context, k int, _ int) (int, error) { return l.Load(ctx, k) }
+
+// supersedeRound: Get(k) starts load 1; the key is invalidated (or written) while load 1 runs; Get(k) starts load 2; load 1
+// finishes (any outcome) while load 2 is still running; a third Get(k) must join load 2 instead of starting a load 3.
+// Overlapping loads are legitimate here only because of the invalidation between them (C08).
+func supersedeRound(c *otter.Cache[int, int], r *rng, round int, stamp *atomic.Int64, out *bufio.Writer) bool {
+	var mu sync.Mutex
+	var log []string
+	k := r.intn(3)
+	c.Invalidate(k)
+	ld := gatedLoader{stamp: stamp, mu: &mu, log: &log, calls: &atomic.Int32{}, base: 100000 * (round + 1)}
+	for i := 0; i < 3; i++ {
+		ld.gates = append(ld.gates, make(chan struct{}))
+		ld.entered = append(ld.entered, make(chan struct{}))
+	}
+	ld.outcomes = []string{pick(r, []string{"err", "err", "ok", "nf", "pan"}), pick(r, []string{"ok", "err"}), "ok"}
+	fmt.Fprintf(out, "round %d outcome=mixed callers=3 keys=1 base=%d\n", round, ld.base)
+	var wg sync.WaitGroup
+	get := func() {
+		wg.Add(1)
+		go func() {
+			defer wg.Done()
+			defer func() { _ = recover() }()
+			_, _ = c.Get(context.Background(), k, ld)
+		}()
+	}
+	waitCh := func(ch chan struct{}, d time.Duration) bool {
+		select {
+		case <-ch:
+			return true
+		case <-time.After(d):
+			return false
+		}
+	}
+	get() // caller A: load 1
+	if !waitCh(ld.entered[0], 2*time.Second) {
+		fmt.Fprintf(out, "quiescent hangs=1 inflight=%d\n", otter.VerifInflight(c))
+		return false
+	}
+	if r.chance(0.7) {
+		c.Invalidate(k)
+	} else {
+		c.Set(k, -1)
+		c.Invalidate(k)
+	}
+	fmt.Fprintf(out, "kill %d %d\n", k, stamp.Add(1))
+	get() // caller B: load 2 (the record of load 1 was removed)
+	second := waitCh(ld.entered[1], 20*time.Millisecond)
+	close(ld.gates[0]) // load 1 finishes while load 2 is in flight
+	time.Sleep(time.Duration(100+r.intn(400)) * time.Microsecond)
+	get() // caller C: must join load 2
+	time.Sleep(time.Duration(200+r.intn(600)) * time.Microsecond)
+	third := int(ld.calls.Load())
+	close(ld.gates[1])
+	close(ld.gates[2])
+	done := make(chan struct{})
+	go func() { wg.Wait(); close(done) }()
+	hangs := 0
+	if !waitCh(done, 5*time.Second) {
+		hangs = 1
+	}
+	mu.Lock()
+	for _, l := range log {
+		fmt.Fprintln(out, l)
+	}
+	mu.Unlock()
+	fmt.Fprintf(out, "supersede second=%v loads_while_second_in_flight=%d\n", second, third)
+	fmt.Fprintf(out, "quiescent hangs=%d inflight=%d\n", hangs, otter.VerifInflight(c))
+	return hangs == 0
 }
 
 func errTok2(err error) string {
